@@ -231,10 +231,24 @@ class Hist:
                     return SPECIAL_RESULTS[t - 1]
             return ctx.apply(fname, z)
 
+        recursive = cfg.get('recursive')
+        box = {'g': None, 'depth': 0, 'inner': 0}
+
         def body(b):
             evals.append(b)
             if raises and ctx.apply_pred(fname + 'R', [warg(v) for v in b]):
                 raise UserError(len(evals))
+            if recursive and box['depth'] < recursive and ctx.apply_pred(fname + 'REC', [warg(v) for v in b]):
+                # memoized recursion: the function first asks the decorated function for the result of a sub-problem
+                # (a deterministic function CH of its own argument)
+                child = ctx.apply(fname + 'CH', [warg(v) for v in b], ArgSort)
+                box['depth'] += 1
+                try:
+                    sub = box['g'](child)
+                finally:
+                    box['depth'] -= 1
+                box['inner'] += 1
+                ctx.check(sub == F((child,)), 'C01:value', {'kind': 'wrong result', 'from': 'recursive call'})
             return F(b)
         if shape == 'x':
             def f(x):
@@ -266,8 +280,10 @@ class Hist:
             ctx.check(False, '%s:constructible' % cfg['props'][0], {'kind': 'decorator raised', 'exc': type(e).__name__,
                                                                      'how': 'positional' if cfg.get('maxsize_positional') else 'keyword'})
             return
+        box['g'] = g
         st = _State(ctx, cfg, g, f, F, evals, maxsize, props, canary)
         st.hist = self
+        st.box = box
         # optional pre-population through the archive + bulk load (C05)
         npre = cfg.get('preload', 0)
         if npre:
@@ -411,6 +427,22 @@ class _State:
         self.calls += 1
         evaluated = n_ev > 0
         expect = self.F(bound)
+        if self.cfg.get('recursive'):
+            # nested calls happened inside this one: only the obligations that do not need per-call bookkeeping
+            inner = self.box['inner']
+            self.box['inner'] = 0
+            self.calls += inner
+            if 'C01' in props:
+                ctx.check(r == expect, 'C01:value', {'kind': 'wrong result', 'from': 'memory' if in_mem else ('archive' if in_arch else 'computed')})
+            if 'C02' in props:
+                ctx.check(Implies(in_mem or in_arch, n_ev == 0) if isinstance(in_mem, bool) else True, 'C02:iff', {'kind': 'evaluated although a result was stored'})
+            if 'C05' in props:
+                self.check_capacity(mem_b, mem_a, True)
+            if 'C15' in props:
+                ctx.check(info_a.hit + info_a.miss + info_a.load == self.calls, 'C15:sum', {'kind': 'hit+miss+load != completed calls (recursive)'})
+                ctx.check(info_a.size == len(mem_a), 'C15:size', {'kind': 'size'})
+                ctx.check(info_a.miss - info_b.miss == n_ev, 'C15:counters', {'kind': 'miss does not count the evaluations of a recursive call', 'got': '', 'want': ''})
+            return True
         if 'C01' in props:
             ok = (r == expect) if not self.canary else (r != expect)
             ctx.check(ok, 'C01:value', {'kind': 'wrong result', 'from': 'memory' if in_mem else ('archive' if in_arch else 'computed')})
@@ -700,6 +732,9 @@ def plan(prop, tier):
                 if a in BOUNDED and prop != 'C05':
                     add(module=m, algo=a, backend='cached_dict', N=3 if q else 4, preload=2 if q else 3, scenario='preload')
                 add(module=m, algo=a, backend='none', N=4 if q else 5, raises=True)
+                if prop in ('C01', 'C05', 'C15'):
+                    for b in ('none', 'cached_dict'):
+                        add(module=m, algo=a, backend=b, N=2 if q else 3, recursive=2, scenario='recursive')
 
     if prop in ('C01', 'C02', 'C15'):
         add_scenarios()
